@@ -193,7 +193,7 @@ func runChain(in ChainIn, scratch string) (obs ChainObs) {
 	}
 	// every handshake ends within registration timeout + 2 × request timeout of its turn; allow
 	// that for each connection, plus the late plugins' own sleeps, plus a generous margin
-	deadline := time.Duration(len(ends))*(regTo+2*reqTo) + 5*(regTo+reqTo) + 20*time.Second
+	deadline := time.Duration(len(ends))*(regTo+2*reqTo) + 5*(regTo+reqTo) + 10*time.Second
 	timer := time.After(deadline)
 	for _, e := range ends {
 		select {
@@ -448,7 +448,7 @@ func workerChain(o *hx.Opts, w *lineio.Writer) error {
 	}
 	adaptation.SetPluginRegistrationTimeout(time.Duration(ins[0].RegToMs) * time.Millisecond)
 	adaptation.SetPluginRequestTimeout(time.Duration(ins[0].ReqToMs) * time.Millisecond)
-	par := 6
+	par := 8
 	sem := make(chan struct{}, par)
 	var wg sync.WaitGroup
 	for i := range ins {
@@ -605,6 +605,24 @@ func genChains(o *hx.Opts, r *rand.Rand, regTo, reqTo int, shapeChains, stallCha
 	for _, s := range stalls {
 		mk([]PlugIn{s})
 	}
+	// 2b. turn-taking: every way a connection can end × a successor whose registration is
+	//     scripted relative to the moment the runtime turns to it (early enough / too late)
+	preds := []PlugIn{
+		goodPlug(r, 0x1fff),
+		{Name: "", Idx: "10", Reg: "now", Cfg: "answer", Sync: "answer"},
+		{Name: "s", Idx: "10", Reg: "never", Cfg: "answer", Sync: "answer"},
+		{Name: "s", Idx: "10", Reg: "now", Close: "early", Cfg: "answer", Sync: "answer"},
+		{Name: "s", Idx: "10", Reg: "now", Cfg: "never", Sync: "answer"},
+		{Name: "s", Idx: "10", Reg: "now", Cfg: "late", Sync: "answer"},
+		{Name: "s", Idx: "10", Reg: "now", Cfg: "answer", Events: 0x4000, Sync: "answer"},
+		{Name: "s", Idx: "10", Reg: "now", Cfg: "answer", Events: 1, Sync: "never"},
+		{Name: "s", Idx: "10", Reg: "late", Cfg: "answer", Sync: "answer"},
+	}
+	for _, pd := range preds {
+		for _, when := range []string{"short", "late"} {
+			mk([]PlugIn{pd, {Name: "t", Idx: "20", Reg: when, Cfg: "answer", Events: randMask(r) & 0x1fff, Sync: "answer"}})
+		}
+	}
 	// 3. several bad plugins of random kinds ahead of a good one, good ones in between
 	for i := 0; i < stallChains; i++ {
 		n := 2 + r.Intn(3)
@@ -747,12 +765,12 @@ func Run(o *hx.Opts, w *lineio.Writer) error {
 		}
 		order = append(order, idxIDs...)
 		n := 0
-		for _, c := range genChains(o, r, 500, 500, o.N(8, 500), o.N(24, 400)) {
+		for _, c := range genChains(o, r, 500, 500, o.N(8, 500), o.N(60, 400)) {
 			addChain(fmt.Sprintf("chain-%d", n), c)
 			n++
 		}
 		// a second pair of timeouts: short registration timeout, long request timeout
-		for _, c := range genChains(o, r, 300, 800, 0, o.N(6, 120)) {
+		for _, c := range genChains(o, r, 300, 800, 0, o.N(16, 120)) {
 			addChain(fmt.Sprintf("chain-%d", n), c)
 			n++
 		}
